@@ -230,6 +230,8 @@ pub fn run_c02(ctx: &Ctx) {
     *ctx.exhaustive.lock().unwrap() = Some(true);
     ctlrun::drive(ctx, if ctx.quick() { 150_000 } else { 3_000_000 }, C02_CFG, "C02", false, false, 1, 0);
     crate::checks::c02r::run(ctx);
+    // `$?` and the order of commands around a foreground child that is stopped and continued
+    crate::checks::c13::stop_continue_slice(ctx, "C02");
     ctx.assume("models/ctl.rs is a faithful reading of XCU 2.9-2.15 (validated against dash and bash at development time)");
     ctx.assume("not generated: break/continue outside a lexically enclosing loop or across a function/subshell boundary, return outside a function, `! !`, probes of a non-last pipeline stage are ordered only within their own stage");
 }
